@@ -52,11 +52,11 @@ class Gen:
             d['name'] = simple
             ns = ens
         elif how == 1:        # explicit namespace
-            ns = r.choice(['ns1', 'org.example', 'a.b.c'])
+            ns = r.choice(['ns1', 'org.example', 'a.b.c', '_u', 'x._y.z', 'A_1.b2', '__'])
             d['name'] = simple
             d['namespace'] = ns
         elif how == 2:        # dotted name (namespace attribute ignored)
-            ns = r.choice(['d1', 'd1.d2'])
+            ns = r.choice(['d1', 'd1.d2', '_internal', 'com._gen', 'Z9._', 'a_.b_'])
             d['name'] = ns + '.' + simple
             if r.chance(1, 2):
                 d['namespace'] = 'ignored.ns'
